@@ -279,6 +279,15 @@ Definition entry_obs (mask : bool) (i : N) (e : entry) : obs :=
 Definition tree_obs (dom : list N) (masked : N -> bool) (t : tree) : obs :=
   OL (flat_map (fun i => match t i with Some e => [entry_obs (masked i) i e] | None => [] end) dom).
 
+(* a basis path is vacated and re-occupied by another id in the shelf preview: PreviewTree.path2id
+   may then resolve the path to the wrong entry and the unshelve merge may raise NoSuchFile (finding
+   C15-preview-path-reuse); the outcome of unshelve is not predicted for such inputs *)
+Definition path_reuse (dom : list N) (basis shelf : tree) : bool :=
+  let lb := shapes dom basis in let ls := shapes dom shelf in
+  existsb (fun x => existsb (fun y => negb (fst x =? fst y) &&
+                                      paths_eqb (path_of (List.length ls) ls (fst x))
+                                                (path_of (List.length lb) lb (fst y))) lb) ls.
+
 Definition touched (s : selection) (i : N) : bool :=
   s CAdd i || s CDel i || s CRen i || s CKind i || s CText i || s CTarget i.
 
@@ -291,6 +300,7 @@ Definition run_tree (dom : list N) (basisL wtL : list (N * entry)) (selL : list 
   | SMalformed => OL [off; OE "MalformedTransform"%string; ON]
   | SOk work shelf =>
       OL [off; tree_obs dom (fun _ => false) work;
+          if path_reuse dom basis shelf then OT "path-reuse"%string else
           match unshelve dom basis shelf work with
           | UShelfNotWf => OT "shelf-not-wf"%string
           | UConflict => OT "conflict"%string
